@@ -142,12 +142,14 @@ Lemma retrieved_table_is : retrieved_decl = "local of Parse" /\
                         "spawn-children"; "return"; "wait-children"; "return"].
 Proof. split; reflexivity. Qed.
 
-(* what identifies an import: the spelling as the listener resolved it, with backslashes shown as slashes and the version cut
-   off - no folding of letter case, no other normalisation (Claim.claim's idx is the identity on spellings without \ and @) *)
+(* what identifies an import: the spelling as the listener resolved it, with backslashes shown as slashes, the version cut
+   off and (since 31ed676) the path cleaned - "./x", "x" and "d/../x" are one file; no folding of letter case (Claim.claim's
+   idx is the identity on clean spellings without \ and @) *)
 Lemma file_index_is : file_index_shape = [
   "fileNameToIndex: ret := cleanImportFilename(filename)";
   "fileNameToIndex: i := strings.Index(ret, ""@"")";
   "fileNameToIndex: if i > -1 { ret = ret[:i] }";
+  "fileNameToIndex: if syslutil.IsRemoteImport(ret) { ret = ""/"" + path.Clean(ret) } else { ret = path.Clean(ret) }";
   "fileNameToIndex: return retrievedListIndex(ret)";
   "cleanImportFilename: return strings.ReplaceAll(filename, `\`, `/`)" ].
 Proof. reflexivity. Qed.
